@@ -127,6 +127,8 @@ TABLE: list[ClassDef] = [
         [FieldDef("kid", "Base | None", "opt", "None", classes=ANY),
          FieldDef("target", "Any", "anyref", "None", compare=False)],
     ),
+    # an `Any`-typed property that holds a plain dict (handed through by the serialization layer as it is)
+    ClassDef("Meta", "Base", [FieldDef("v", "int", "int", "0"), FieldDef("meta", "Any", "anydict", "None", compare=False)]),
     # a class body with value-based __eq__ / __hash__ of its own (the library installs its own pair)
     ClassDef(
         "EqLeaf", "Base",
@@ -362,6 +364,15 @@ class Color(enum.Enum):
     RED = "red"
     GREEN = "green"
     BLUE = "blue"
+
+
+class Prio(enum.IntEnum):
+    LOW = 1
+    HIGH = 2
+
+
+class Line(int):
+    """a user subclass of int: prints like the number"""
 
 
 class SKind(str, enum.Enum):
